@@ -343,6 +343,15 @@ def generate(tier):
         if name == "lock_as_ptr_write":
             continue
         add(f"cell_style_mutators/{name}", body, group="cell_style_mutators")
+    # Static<T> around interior mutability holding a pointer, ROOTED (the holder is black): only sound because Static needs T: 'static
+    for cell, newc, stmt, holds in (("Cell", "Cell::new(None)", "ext.0.set(Some(child));", "{ let v = e.0.take(); let r = v.is_some(); e.0.set(v); r }"),
+                                    ("RefCell", "RefCell::new(None)", "*ext.0.borrow_mut() = Some(child);", "e.0.borrow().is_some()")):
+        sx = (f"type Ext<'gc> = Gc<'gc, gc_arena::Static<{cell}<Option<Gc<'gc, Child>>>>>;\nfn ext<'gc>(mc: &Mutation<'gc>) -> Ext<'gc> {{ Gc::new(mc, gc_arena::Static({newc})) }}\n"
+              f"fn ext_holds<'gc>(e: &Ext<'gc>) -> bool {{ {holds} }}\n")
+        add(f"static_wrapper/rooted_{cell}", stmt, group="static_wrapper", ext=sx)
+        sx2 = sx.replace("Gc::new(mc, gc_arena::Static(", "Gc::new_static(mc, (").replace(f"Gc<'gc, gc_arena::Static<{cell}<Option<Gc<'gc, Child>>>>>", f"Gc<'gc, {cell}<Option<Gc<'gc, Child>>>>")
+        add(f"static_wrapper/rooted_new_static_{cell}", stmt.replace("ext.0.", "ext.") if cell == "Cell" else "*ext.borrow_mut() = Some(child);", group="static_wrapper",
+            ext=sx2.replace("e.0.", "e."))
     # D4 family seen from C13: a root type that is only well-formed if 'gc: 'static hands the callback the implied bound,
     # under which every `T: 'static` guard of the barrier API is satisfiable for branded data (known finding, same root cause as C12's)
     IMPLIED = '''#![forbid(unsafe_code)]
@@ -395,9 +404,24 @@ fn main() {
     for cname, cty, mk in (("btree", "BTreeMap<u8, Gc<'gc, Lk<'gc>>>", "BTreeMap::from([(0u8, h.gc)])"), ("hash", "HashMap<u8, Gc<'gc, Lk<'gc>>>", "HashMap::from([(0u8, h.gc)])")):
         items = f"struct Via;\nimpl<'gc> std::ops::Index<Via> for {cty} {{ type Output = Lk<'gc>; fn index(&self, _: Via) -> &Lk<'gc> {{ &*self[&0u8] }} }}\n"
         add(f"user_index_type/{cname}/from_mut_local", f"(&Write::from_mut(&mut {mk})[Via]).unlock().set(Some(child));", group="user_index_type", items=items)
+    # third-party containers (all optional features): user index types that deref a Gc element, by value and by reference
+    more = []
+    tp = {
+        "hashbrown_map": ("hashbrown::HashMap<u8, Gc<'gc, Lk<'gc>>, std::collections::hash_map::RandomState>", "{ let mut m = hashbrown::HashMap::<u8, _, std::collections::hash_map::RandomState>::default(); m.insert(0u8, h.gc); m }", "&*self[&0u8]"),
+        "indexmap_map": ("indexmap::IndexMap<u8, Gc<'gc, Lk<'gc>>, std::collections::hash_map::RandomState>", "{ let mut m = indexmap::IndexMap::<u8, _, std::collections::hash_map::RandomState>::default(); m.insert(0u8, h.gc); m }", "&*self[&0u8]"),
+        "smallvec": ("smallvec::SmallVec<[Gc<'gc, Lk<'gc>>; 2]>", "smallvec::SmallVec::<[Gc<'_, Lk<'_>>; 2]>::from_vec(vec![h.gc])", "&*self[0usize]"),
+    }
+    for cname, (cty, mk, body) in tp.items():
+        for vname, ity, iex in (("by_value", "Via", "Via"), ("by_ref", "&'a Via", "&Via")):
+            gen = "<'a, 'gc>" if vname == "by_ref" else "<'gc>"
+            items = f"struct Via;\nimpl{gen} std::ops::Index<{ity}> for {cty} {{ type Output = Lk<'gc>; fn index(&self, _: {ity}) -> &Lk<'gc> {{ {body} }} }}\n"
+            pid = f"user_index_type/{cname}/{vname}/from_mut_local"
+            more.append(Probe(pid, program(f"let mut m = {mk}; (&Write::from_mut(&mut m)[{iex}]).unlock().set(Some(child));", items), "reject_or_run", group="user_index_type"))
+    more.append(Probe("control/third_party_present", program("let mut m = hashbrown::HashMap::<u8, u8, std::collections::hash_map::RandomState>::default(); m.insert(0u8, 1u8); let _ = indexmap::IndexMap::<u8, u8, std::collections::hash_map::RandomState>::default(); let _ = smallvec::SmallVec::<[u8; 2]>::new(); let _ = child;"), "run", group="control"))
     return {
+        "more": [{"probes": more, "features": "allf", "externs": ("gc_arena", "hashbrown", "indexmap", "slotmap", "smallvec", "enum_map")}],
         "probes": ps,
-        "rule": f"typed term grammar, depth <= {depth} projections: Write source {{Gc::write on the black holder, Gc::write on a white co-owner sharing its Rc/Arc/Gc fields, Write::from_mut of a reference / a clone / a local carrier (Box, Rc, Arc, Vec, array, Option, Result, VecDeque, BTreeMap, HashMap) of a reference, Write::from_static}} x {len(FIELDS)} holder fields (Lock, RefLock, OnceLock directly and behind Box, Rc, Arc, Vec, array, VecDeque, BTreeMap, HashMap, Option, Result, Gc, nested struct, and two-level nestings) x projection chains {{as_deref, as_write, index, range index, key index, field!}} typed under an over-approximate model (DerefWrite / IndexWrite assumed for every pointer and container incl. Gc) x sink by lock kind; plus fixed probes (forged Write, unsafe accessors without unsafe, Cell/RefCell fields under derive incl. require_static + bound combinations, Static<Cell>, user Unlock / DerefWrite / IndexWrite impls, user index types that deref a Gc element). Every accepted program is run: holder black in a fully marked arena (first and later cycle), fresh white child; violation = child reachable through the holder but destructed. macro forms that do not exist today (positional field arm, expected types forcing a deref coercion, Unlock on a pointer field) and Cell-style mutator names on Lock / RefLock / OnceLock without a Mutation; client types covered by static_collect! (generic with / without where clause, concrete) instantiated with a pointer. Non-trivial = all but the 10 controls",
+        "rule": f"typed term grammar, depth <= {depth} projections: Write source {{Gc::write on the black holder, Gc::write on a white co-owner sharing its Rc/Arc/Gc fields, Write::from_mut of a reference / a clone / a local carrier (Box, Rc, Arc, Vec, array, Option, Result, VecDeque, BTreeMap, HashMap) of a reference, Write::from_static}} x {len(FIELDS)} holder fields (Lock, RefLock, OnceLock directly and behind Box, Rc, Arc, Vec, array, VecDeque, BTreeMap, HashMap, Option, Result, Gc, nested struct, and two-level nestings) x projection chains {{as_deref, as_write, index, range index, key index, field!}} typed under an over-approximate model (DerefWrite / IndexWrite assumed for every pointer and container incl. Gc) x sink by lock kind; plus fixed probes (forged Write, unsafe accessors without unsafe, Cell/RefCell fields under derive incl. require_static + bound combinations, Static<Cell>, user Unlock / DerefWrite / IndexWrite impls, user index types that deref a Gc element - also on hashbrown / indexmap / smallvec containers with all optional features). Every accepted program is run: holder black in a fully marked arena (first and later cycle), fresh white child; violation = child reachable through the holder but destructed. macro forms that do not exist today (positional field arm, expected types forcing a deref coercion, Unlock on a pointer field) and Cell-style mutator names on Lock / RefLock / OnceLock without a Mutation; client types covered by static_collect! (generic with / without where clause, concrete) instantiated with a pointer. Non-trivial = all but the 10 controls",
         "post": post,
         "level": "exploration",
         "assumptions": ["pinned rustc 1.95 decides acceptance", "exhaustive over the stated grammar, not over all safe programs", "accepted programs are run in one scenario family (holder black / fully marked arena, before and after a first cycle)"],
